@@ -2123,6 +2123,11 @@ func (app *App) performChangeMaster(host, master string) error {
 			app.logger.Warn().Msgf("changemaster: failed to get slave status on host %s: %v", host, err)
 			continue
 		}
+		if sstatus == nil {
+			app.logger.Warn().Msgf("changemaster: host %s has no slave status yet, waiting...", host)
+			time.Sleep(time.Second)
+			continue
+		}
 		if sstatus.ReplicationRunning() {
 			break
 		}
